@@ -3,7 +3,7 @@
 //! separately (records, observed contexts) and compared by the oracles.
 
 use fastrace::prelude::SpanRecord;
-use std::collections::BTreeMap;
+use std::collections::{BTreeMap, HashSet};
 
 pub type T = u32; // logical time
 
@@ -73,6 +73,8 @@ pub struct MScope {
     pub sampled_any: bool,
     /// number of raw entries recorded in the scope (local spans + pseudo spans)
     pub count: usize,
+    /// local spans entered after the scope was full (not recorded) and still open
+    pub skipped_open: usize,
     pub open: Vec<usize>,
     /// collected into this set (collector scopes)
     pub set: Option<usize>,
@@ -229,6 +231,8 @@ pub struct Probe {
     pub span_is_noop: bool,
     /// name of the probe event (LocalSpan::add_event)
     pub event_name: String,
+    /// key of the probe property (LocalSpan::add_property)
+    pub prop_key: String,
     pub depth: usize,
     pub kinds: u8,
 }
@@ -267,6 +271,9 @@ pub enum HookKind {
     RecvEmpty,
     /// `ring`: the receiver being drained (from the preceding BeforeDrain)
     Received { kind: &'static str, ids: Vec<usize>, ring: usize },
+    /// the vthread registered its command queue (first command); `waited`: the registry was
+    /// locked by a cycle in progress and the vthread had to wait for the drain to end
+    Register { waited: bool },
 }
 
 #[derive(Clone, Debug, Default)]
@@ -375,6 +382,8 @@ pub struct Hist {
     pub trace_hash: u64,
     /// ops skipped because nothing to resolve against
     pub skipped_ops: u32,
+    /// indices into `atts`: local attachments made after their scope was full (may be omitted)
+    pub overflow_atts: HashSet<usize>,
     pub executed_ops: u32,
     /// shapes excluded by construction because of a known finding
     pub excluded: BTreeMap<&'static str, u32>,
